@@ -126,6 +126,8 @@ fn main() {
     ctx.assume("enum-valued / structured settings without a documented range are free axes of the grids (k-means init incl. Precomputed with rows == and != n_clusters, GMM init method, DBSCAN / OPTICS neighbour index, SVM kernel, PLS algorithm and scale, tree split quality / depth / leaf weight, logistic initial parameters, Tweedie link, t-SNE preliminary iterations): every value is documented valid; k-means Precomputed with rows != n_clusters passes both checks and then hits the assert of KMeansInit::run in BOTH forms (counted under valid_points_where_both_forms_panic, not a violation of this property)");
     ctx.assume("builder-order histories: `valid_then_invalid_then_moved` (A, then the invalid A', then B on the same value without any check: last write wins) and, for every params type with rebuilding / type-changing / whole-field setters - k-means init_method; GMM with_rng, init_method, covariance_type; DBSCAN / OPTICS dist_fn, nn_algo; hierarchical with_method; SVM with_kernel_params, with_platt_params; FTRL rng; random projection with_rng; count vectoriser tokenizer - the orders `values_then_<setter>` (every value setter of B BEFORE the rebuilding setter, which is called with the value the point already has), `<setter>_then_values` (AFTER it) and `values_then_all_rebuilding_setters`: the builder's Debug snapshot, check_ref(), check() and the first training form must equal those of the builder built in the harness' default order (sig *.history.<name>.parameters_differ_from_fresh / *_verdict_differs_from_fresh / *_result_differs_from_fresh)");
     ctx.assume("valid extremes: every float list carries the largest finite value of the float type (class max_finite), every count list u32::MAX (class huge), the logistic initial parameters carry all-MAX, MAX-and-1, all -MAX (sums overflow), MIN_POSITIVE, subnormal and -0.0 arrays: documented valid, check() / check_ref() must accept them; no training call with the huge ones (skip_ops)");
+    ctx.assume("'returns exactly that error' is structural: on an invalid point every training / transform form must return (Debug representation) the parameter-error VALUE of check() wrapped in the documented variant of the form's own error type, and the expectation is built by naming that variant, never through the crate's From conversion: k-means fit -> KMeansError::InvalidParams(e), k-means fit_with -> IncrKMeansError::InvalidParams(e); for every other form the parameter error type IS the form's error type (GmmError, OpticsError, DbscanParamsError through TransformGuard, ElasticNetError, logistic Error, LinearError, SvmError incl. SvmError::Platt(e) produced by check itself, linfa::Error for the tree, NaiveBayesError, FtrlError, PlsError, TSneError, FastIcaError, ReductionError, PlattError, HierarchicalError, PreprocessingError) and the value must be returned unchanged");
+    ctx.assume("dataset-form entry points (t-SNE transform(DatasetBase) - a hand-written forwarder on the unchecked builder -, DBSCAN transform(DatasetBase), hierarchical transform(DatasetBase<Kernel>)) are run on datasets that carry targets, sample weights and feature names, and the WHOLE result of the unchecked form must equal the checked form: records, targets, weights, feature names, target names; the k-means and tree fits also run on datasets with weights and names");
     ctx.assume("a documented-invalid point that check() accepts is reported and NOT trained on; values flagged skip_ops (solver can only stop at its iteration cap) get the verdict oracles but no training call");
 
     let mut cases: Vec<Case> = Vec::new();
